@@ -107,6 +107,22 @@ def judge(ctx, case, r, via="worker"):
         acc.violation("abort", sig, case, observed=dict(signal=r.sig, rc=r.rc),
                       expected="Ok or Err", what="%s process died (signal %s) in family %s" % (via, r.sig, fam))
         return sig
+    if st == "stall":
+        # two-strike rule: confirm in a second, solitary run on a fresh worker
+        w2 = core.Worker(wall_s=120)
+        try:
+            r2 = w2.run(data, case.get("cfg"), api="probe", stack_kib=STACK)
+        finally:
+            w2.close()
+        if r2.status != "stall":
+            acc.inconc("stall-not-reproduced")
+            return None
+        fam = case.get("fam") or "mutant"
+        sig = "hang:no-hook-progress@%s" % fam
+        acc.violation("hang", sig, case, observed=dict(cpu_ms_without_progress=r.get("cpu_ms_without_progress"), elem_evals=r.elem_evals, expr_evals=r.expr_evals),
+                      expected="Ok or Err", what="the job burnt %s ms of CPU without reaching any hook (element / expression evaluation, retry pass, loop iteration, "
+                      "scanner step), twice: it is spinning" % r.get("cpu_ms_without_progress"))
+        return sig
     if st == "blowup":
         sig = "blowup@" + ("nested-retries" if case.get("nested") else "flat")
         acc.violation("blow-up", sig, case, observed=dict(elem_evals=r.elem_evals, expr_evals=r.expr_evals, budget=r.max),
@@ -155,7 +171,7 @@ def check_case(ctx, case):
             acc.count("api.str")
         except UnicodeDecodeError:
             pass
-    if case.get("frontends") and r.status != "wallclock" and not (sig or "").startswith(("noprogress", "blowup")):
+    if case.get("frontends") and r.status != "wallclock" and not (sig or "").startswith(("noprogress", "blowup", "hang")):
         run_frontends(ctx, case, sig)
     return r
 
